@@ -19,6 +19,9 @@ void vxs_point(const char* label);
 int vxs_managed(void);
 void vxs_set_point_after_unlock(int v);
 void vxs_set_free_switch(int v);
+void vxs_scope_clear(void);
+void vxs_scope_add(void* addr);
+void vxs_set_timeout_hook(void (*f)(void));
 int vxs_choose(int n, int deviation, const char* label);
 void vxs_fatal(int code, const char* what);
 }
@@ -47,6 +50,7 @@ struct Shm {
     char fatal_what[512];
     char oracle_what[8][512];
     char oracle_trace[8][2048];
+    char exec_fail[512];       // fork_each: failure text of the execution run in the grandchild
     int n_oracle;
     int max_dev;
     int replay_mode;
@@ -57,6 +61,7 @@ struct Options {
     int max_preempt = 2;
     long step_limit = 200000;
     int max_violations = 3;
+    bool fork_each = false;    // run every execution in its own forked process (body mutates long-lived state, e.g. a node)
     bool free_switch = true;   // false: picking a non-default thread at a blocking point / signal also costs a deviation
     double exec_timeout_s = 20; // wall limit for one child without progress → harness error, not a violation
 };
@@ -112,7 +117,7 @@ inline Outcome explore(const std::string& key_prefix, const std::function<std::s
     // call_once, lazily created globals) happens before the search; otherwise the first execution of every
     // child would have choice points later executions lack. Done in a throw-away child first: if even the
     // default schedule dies, that is reported instead of killing the driver.
-    {
+    if (!opt.fork_each) {
         fflush(stdout);
         pid_t p = fork();
         if (p == 0) {
@@ -143,10 +148,30 @@ inline Outcome explore(const std::string& key_prefix, const std::function<std::s
                 for (int i = 0; i < s->next_len; i++) s->choice[i] = s->next[i];
                 s->len = 0;
                 s->devs = 0;
+                std::string fail;
+                if (opt.fork_each) {
+                    s->exec_fail[0] = 0;
+                    fflush(stdout);
+                    pid_t g = fork();
+                    if (g == 0) {
+                        vxs_begin(opt.step_limit);
+                        std::string f2 = body();
+                        int left = vxs_end();
+                        if (left) f2 = "vx-sched: " + std::to_string(left) + " thread(s) not joined at the end of the body";
+                        snprintf(s->exec_fail, sizeof s->exec_fail, "%s", f2.c_str());
+                        _exit(0);
+                    }
+                    int gst = 0;
+                    waitpid(g, &gst, 0);
+                    if (WIFSIGNALED(gst)) { signal(WTERMSIG(gst), SIG_DFL); raise(WTERMSIG(gst)); _exit(99); }
+                    if (WEXITSTATUS(gst) != 0) _exit(WEXITSTATUS(gst));
+                    fail = s->exec_fail;
+                } else {
                 vxs_begin(opt.step_limit);
-                std::string fail = body();
+                fail = body();
                 int left = vxs_end();
                 if (left) fail = "vx-sched: " + std::to_string(left) + " thread(s) not joined at the end of the body";
+                }
                 if (s->len < s->prefix_len && fail.empty()) fail = "vx-sched: replay divergence (execution ended before the prefix was consumed)";
                 s->executions++;
                 s->choice_points += s->len;
